@@ -1265,6 +1265,95 @@ def _remote_exec_shape_ok():
     return "true" if ok else "false"
 
 
+# ---- C05 / C11 : termination ----------------------------------------------------------------------------
+
+
+@fact("term_wait_mult", "nat", "0")
+def _term_wait_mult():
+    """safe_terminate bounds every wait by timeout * <mult>"""
+    f = find("multi.py", "safe_terminate")
+    for n in ast.walk(f):
+        if isinstance(n, ast.Assign) and _src(n.targets[0]) == "wait_timeout":
+            v = n.value
+            if isinstance(v, ast.IfExp) and _src(v.test) == "timeout is None" and _src(v.body) == "None" and isinstance(v.orelse, ast.BinOp) and isinstance(v.orelse.op, ast.Mult) and _src(v.orelse.left) == "timeout" and isinstance(v.orelse.right, ast.Constant) and isinstance(v.orelse.right.value, int) and 0 < v.orelse.right.value < 100:
+                return str(v.orelse.right.value)
+    return "0"
+
+
+@fact("term_safe_terminate_ok", "bool", "false")
+def _term_safe_terminate_ok():
+    """safe_terminate: one pool thread per member runs termkill (spawn termfunc, wait for it `timeout`, on OSError call
+    killfunc); the caller waits for each termkill with the bounded wait, skips the ones still running, then a bounded waitall"""
+    t = _src(find("multi.py", "safe_terminate"))
+    need = ["workerpool = WorkerPool(execmodel)", "termreply = workerpool.spawn(termfunc)\n        try:\n            termreply.get(timeout=timeout)\n        except OSError:\n            killfunc()",
+            "replylist = [workerpool.spawn(termkill, termfunc, killfunc) for termfunc, killfunc in list_of_paired_functions]",
+            "for reply in replylist:\n        try:\n            reply.waitfinish(timeout=wait_timeout)\n        except OSError:\n            continue\n        reply.get()",
+            "workerpool.waitall(timeout=wait_timeout)"]
+    return "true" if all(x in t for x in need) else "false"
+
+
+@fact("term_terminate_ok", "bool", "false")
+def _term_terminate_ok():
+    """Group.terminate: while members remain: exit every member that is nobody's via; join + wait resp. kill of the io
+    for every exited member through safe_terminate; Gateway.exit unregisters first and swallows IO errors; the popen IO's
+    kill/wait act on the child process"""
+    t = _src(find("multi.py", "Group.terminate"))
+    need = ["while self:", "for gw in self:\n            if gw.spec.via:\n                vias.add(gw.spec.via)", "for gw in self:\n            if gw.id not in vias:\n                gw.exit()",
+            "def join_wait(gw: Gateway) -> None:\n            gw.join()\n            gw._io.wait()", "gw._io.kill()",
+            "safe_terminate(self.execmodel, timeout, [(partial(join_wait, gw), partial(kill, gw)) for gw in self._gateways_to_join])", "self._gateways_to_join[:] = []"]
+    ok = all(x in t for x in need)
+    k = [n for n in find("multi.py", "Group.terminate").body if isinstance(n, ast.While)]
+    kill = [n for w in k for n in ast.walk(w) if isinstance(n, ast.FunctionDef) and n.name == "kill"]
+    ok = ok and len(kill) == 1 and [_src(x) for x in _Strip().visit(__import__("copy").deepcopy(kill[0])).body] == ["gw._io.kill()"]
+    e = _src(_Strip().visit(__import__("copy").deepcopy(find("gateway.py", "Gateway.exit"))))
+    ok = ok and "if self not in self._group:\n        return" in e and "self._group._unregister(self)\n    try:\n        self._send(Message.GATEWAY_TERMINATE)\n        self._io.close_write()\n    except (ValueError, EOFError, OSError) as exc:" in e
+    u = _src(find("multi.py", "Group._unregister"))
+    ok = ok and "self._gateways.remove(gateway)" in u and "self._gateways_to_join.append(gateway)" in u
+    ok = ok and "self.popen.kill()" in _src(find("gateway_io.py", "Popen2IOMaster.kill")) and "return self.popen.wait()" in _src(find("gateway_io.py", "Popen2IOMaster.wait"))
+    return "true" if ok else "false"
+
+
+def _ladder_consts():
+    f = find("gateway_base.py", "WorkerGateway._terminate_execution")
+    vals = []
+    for n in ast.walk(f):
+        if isinstance(n, ast.Call) and _src(n.func) == "self._execpool.waitall" and n.args and isinstance(n.args[0], ast.Constant):
+            vals.append(n.args[0].value)
+    if len(vals) != 2 or any(float(v) != int(v) or not (0 < v < 1000) for v in vals):
+        raise LookupError("waitall constants " + repr(vals))
+    return int(vals[0]), int(vals[1])
+
+
+@fact("ladder_t1", "nat", "0")
+def _ladder_t1():
+    return str(_ladder_consts()[0])
+
+
+@fact("ladder_t2", "nat", "0")
+def _ladder_t2():
+    return str(_ladder_consts()[1])
+
+
+@fact("ladder_shape_ok", "bool", "false")
+def _ladder_shape_ok():
+    """_terminate_execution: trigger_shutdown; if not waitall(t1): SIGINT to ourselves (interrupt_main on win32); if not
+    waitall(t2): os._exit(1).  serve(): integrate as primary thread, join the receiver, KeyboardInterrupt ends serve;
+    executetask closes the channel and re-raises KeyboardInterrupt.  The epilogue reaches _terminate_execution without
+    taking the receive lock (a user callback may hold it)."""
+    t = _src(_Strip().visit(__import__("copy").deepcopy(find("gateway_base.py", "WorkerGateway._terminate_execution"))))
+    want = ("def _terminate_execution(self) -> None:\n    self._execpool.trigger_shutdown()\n    if not self._execpool.waitall(5.0):\n        if sys.platform != 'win32':\n            os.kill(os.getpid(), 2)\n"
+            "        elif interrupt_main is not None:\n            interrupt_main()\n        if not self._execpool.waitall(10.0):\n            os._exit(1)")
+    t1, t2 = _ladder_consts()
+    ok = t == want.replace("5.0", "%d.0" % t1).replace("10.0", "%d.0" % t2)
+    sv = _src(_Strip().visit(__import__("copy").deepcopy(find("gateway_base.py", "WorkerGateway.serve"))))
+    ok = ok and "self._initreceive()\n    try:\n        if hasprimary:\n            self._execpool.integrate_as_primary_thread()\n        self.join()\n    except KeyboardInterrupt:" in sv
+    ex = _src(find("gateway_base.py", "WorkerGateway._executetask"))
+    ok = ok and "except KeyboardInterrupt:\n        channel.close(INTERRUPT_TEXT)\n        raise" in ex
+    rc = find("gateway_base.py", "BaseGateway._thread_receiver")
+    locked_epilogue = any(isinstance(n, ast.With) and "_receivelock" in _src(n.items[0].context_expr) and "_finished_receiving" in _src(n) for n in ast.walk(rc))
+    return "true" if ok and not locked_epilogue else "false"
+
+
 # ---- C18 : channel ids -------------------------------------------------------------------------------
 
 
@@ -1393,6 +1482,11 @@ DIGESTS = [
     ("multi.py", "Group._unregister"),
     ("multi.py", "Group.__getitem__"),
     ("multi.py", "Group.__contains__"),
+    ("multi.py", "safe_terminate"),
+    ("multi.py", "Group.terminate"),
+    ("multi.py", "Group.makegateway"),
+    ("gateway.py", "Gateway.exit"),
+    ("gateway_base.py", "WorkerGateway._terminate_execution"),
     ("gateway.py", "_source_of_function"),
     ("gateway.py", "_find_non_builtin_globals"),
     ("gateway_base.py", "init_popen_io"),
